@@ -434,7 +434,7 @@ def configs(op: str, tier: str) -> List[Dict[str, Any]]:
     elif op == "softmax":
         for r in ([1, 2, 3] if th else [1, 3]):
             for dim in sorted(set([-1, 0, r - 1, -r])):
-                for c in (cons if dim == -1 else [None, "gmean"]):
+                for c in (cons if (th or dim == -1) else [None, "gmean"]):
                     add(rank=r, dim=dim, constraint=c, dtype=dts[(r + dim) % len(dts)], sm_dtype=None)
         add(rank=2, dim=-1, constraint="to_output_scale", dtype="bfloat16", sm_dtype=torch.float32)
     elif op == "dropout":
@@ -453,7 +453,7 @@ def configs(op: str, tier: str) -> List[Dict[str, Any]]:
     elif op == "conv1d":
         for r in (0, 1):
             for bias in (True, False):
-                for c in (cons if (r == 1 and bias) or th else [None, "gmean"]):
+                for c in (cons if (r == 1 and bias) or th else [None, "gmean"]):  # thorough: all constraints everywhere
                     add(rank=r, bias=bias, constraint=c, dtype=dts[r % len(dts)], padding=True)
         add(rank=1, bias=True, constraint=None, dtype="float32", padding=False)
         add(rank=1, bias=True, constraint="gmean", dtype="float32", padding=True, tuples=True)
@@ -467,7 +467,7 @@ def configs(op: str, tier: str) -> List[Dict[str, Any]]:
     elif op == "add":
         pats = ["e", "ee", "eee", "ae", "eb", "Ae", "Be", "AAe", "aeb", "BeA"[0:2] + "e", "ea", "Aeb"] if th else ["ee", "ae", "Be", "aeb", "A", "eb"]
         for pat in pats:
-            for c in (cons if pat in ("ee", "ae", "Be") else [None, "gmean", DEFAULT]):
+            for c in (cons if (th or pat in ("ee", "ae", "Be")) else [None, "gmean", DEFAULT]):
                 add(pattern=pat, constraint=c, dtype=dts[len(pat) % len(dts)])
     elif op == "embedding":
         for r in ([0, 1, 2, 3] if th else [1, 2]):
@@ -489,6 +489,16 @@ def configs(op: str, tier: str) -> List[Dict[str, Any]]:
         for r in ranks:
             for red in ("mean", "sum"):
                 add(rank=r, reduction=red, constraint=None, dtype=dts[r % len(dts)])
+    if th:  # thorough: every configuration under every dtype (quick rotates the dtype over the configurations)
+        full, seen = [], set()
+        for cfg in out:
+            for dt in dts:
+                c2 = dict(cfg, dtype=dt)
+                k = repr(sorted((a, str(b)) for a, b in c2.items()))
+                if k not in seen:
+                    seen.add(k)
+                    full.append(c2)
+        out = full
     return out
 
 
@@ -860,6 +870,12 @@ def replay_functional(obname: str, model: Dict[str, Any], info: Any) -> Tuple[bo
         return bool(bad), f"{where}: " + "; ".join(bad or [f"grad[{n}] factor {a1!r} consistent"])
     if claim == "unit":
         n = info["tensor"]
+        if cfg["op"] == "conv1d" and n == "x":
+            # the interior-position clause needs interior positions: the input-gradient factor does not depend on the sequence length,
+            # so the replay uses a sequence long enough to have several stride periods away from both ends
+            k_, d_, s_, p_ = (int(model.get(q, dflt)) for q, dflt in (("kernel", 3), ("dilation", 2), ("stride", 2), ("padding", 1)))
+            model = dict(model, seq=max(int(model.get("seq", 11)), 4 * (d_ * (k_ - 1) + p_ + s_) + 6 * s_))
+            m1 = measure(cfg, model, seed=1)
         f = m1[n][0]
         terms = measure_terms(cfg, model).get(n)
         if terms is None:
